@@ -9,6 +9,9 @@ PROPS["C14"] = {
             spec("C14/traffic/aggregation/percentiles", "VerifC14AggTraffic", {"fun": "percentiles"}, allow_no_assert=True, tier="thorough"),
             spec("C14/params/aggregation/noregex", "VerifC14AggParams", {"regex": ""}, allow_no_assert=True, allow_no_ok=True)]},
         {"pkg": "destination", "hdir": "destination", "no_native": True, "specs": [spec("C14/params/destination", "VerifC14DestParams", allow_no_assert=True)]},
+        {"pkg": "imperatives", "hdir": "imperatives", "overlays": {"destination": "destination/c20.go", "route": "route/c20.go", "pkg/mt-conf": "mtconf/c20.go"}, "specs": [
+            spec("C14/admin/%s" % c, "VerifC14AdminWords", {"cmd": c}, allow_no_ok=True) for c in ("addRewriter", "addBlack", "addBlackRegex", "delRoute", "modDest", "modRoute")]},
+        {"pkg": "rewriter", "hdir": "rewriter", "specs": [spec("C14/params/rewriter", "VerifC14RewriterNew", allow_no_assert=True)]},
         {"pkg": "route", "hdir": "route", "specs": [spec("C14/params/hashring-emptied", "VerifC14HashRingEmptied", allow_no_assert=True)]},
         # byte streams on the inputs (harnesses shared with C12 / C13: any reachable panic is a C14 violation)
         {"pkg": "input", "hdir": "input", "specs": [
